@@ -21,6 +21,10 @@ places are kept as *probe* categories (reported, never judged):
     blanks: "A [- c -] b" reads "A  b")                                    probe: value_spaced
 The blank-on-both-sides variant between the words of component names, aliases, notes, section names and
 metadata keys IS judged (edit name_comment_spaced): those are words, and the result must be equal exactly.
+Both judged padded edits (mid_comment_spaced, name_comment_spaced) are the edit of the theorems
+C17_padded_comment_events / _recipe of Properties/C17.v (x1 = "", x2 = " "); the metadata-value probe is the
+place of C17_padded_meta_value_refuted, probe_brace is not claimed (C17_padded_brace_refuted: the glued
+spelling inside braces changes an ADVANCED_UNITS quantity).
 """
 import re
 import unicodedata
@@ -436,7 +440,11 @@ def mid_comment(text, P, rng, mode, cats=CLAIMED_AFTER):
 
 
 def mid_comment_spaced(text, P, rng, mode, cats=("step_text", "paragraph_text")):
-    cands = [o for c in cats for o in P.at_blank.get(c, [])]
+    # the padded edit `word [- c -] next`: "[-c-] " goes directly after the blank run that is there.  The run must end
+    # with U+0020 - the blank that is added then lengthens a run of U+0020, which Text::text_trimmed and the
+    # normalisation of step text collapse; after a TAB or a non-ASCII blank it would not (Properties/C17.v
+    # [C17_padded_comment_events] and its counterpart [C17_padded_tab_refuted])
+    cands = [o for c in cats for o in P.at_blank.get(c, []) if text[o - 1:o] == " "]
     pts = _choose(rng, cands, mode)
     return _apply(text, [(o, "[-" + rng.choice(BLOCK_COMMENTS) + "-] ") for o in pts]), len(pts)
 
